@@ -175,7 +175,8 @@ func (g *gctx) stmts(list []ast.Stmt, wantReturn bool) (acts []string, next stri
 			acts = append(acts, ".unknown")
 			continue
 		case *ast.DeferStmt:
-			if norm(g.c.Src(x.Call)) == "func() { p.ignoreST = false }()" {
+			// only in the prologue (an arm-level defer is outside the model: `.unknown`)
+			if !wantReturn && norm(g.c.Src(x.Call)) == "func() { p.ignoreST = false }()" {
 				acts = append(acts, ".deferClearIgnoreST")
 				continue
 			}
@@ -271,6 +272,28 @@ func (g *gctx) stateFn(fd *ast.FuncDecl) (string, bool) {
 		g.c.Fail("%s: %s is not `switch { … }`", g.c.Pos(fd), fd.Name.Name)
 		return "", false
 	}
+	// `if <label> || <label> … { …; return <state> }` statements at the very top of the function:
+	// early arms (tried in order before the prologue runs).  Anything else stays in the prologue.
+	var early []string
+	for len(pre) > 0 {
+		is, ok := pre[0].(*ast.IfStmt)
+		if !ok || is.Init != nil || is.Else != nil {
+			break
+		}
+		gs, ok := g.orGuards(is.Cond)
+		if !ok || len(is.Body.List) == 0 {
+			break
+		}
+		if _, isRet := is.Body.List[len(is.Body.List)-1].(*ast.ReturnStmt); !isRet {
+			break
+		}
+		acts, next, ok := g.stmts(is.Body.List, true)
+		if !ok {
+			return "", false
+		}
+		early = append(early, fmt.Sprintf("    { guards := %s, acts := %s, next := %s }", leanList(gs), leanList(acts), next))
+		pre = pre[1:]
+	}
 	preActs, _, ok := g.stmts(pre, false)
 	if !ok {
 		return "", false
@@ -311,7 +334,33 @@ func (g *gctx) stateFn(fd *ast.FuncDecl) (string, bool) {
 		g.c.Fail("%s: %s has no default arm", g.c.Pos(fd), fd.Name.Name)
 		return "", false
 	}
-	return fmt.Sprintf("{ pre := %s,\n  arms := [\n%s],\n  dflt := %s }", leanList(preActs), strings.Join(arms, ",\n"), dflt), true
+	earlyStr := ""
+	if len(early) > 0 {
+		earlyStr = fmt.Sprintf("early := [\n%s],\n  ", strings.Join(early, ",\n"))
+	}
+	return fmt.Sprintf("{ %spre := %s,\n  arms := [\n%s],\n  dflt := %s }", earlyStr, leanList(preActs), strings.Join(arms, ",\n"), dflt), true
+}
+
+// orGuards reads `g1 || g2 || …` where every operand is a case-label expression.
+func (g *gctx) orGuards(e ast.Expr) ([]string, bool) {
+	switch x := e.(type) {
+	case *ast.ParenExpr:
+		return g.orGuards(x.X)
+	case *ast.BinaryExpr:
+		if x.Op == token.LOR {
+			l, ok1 := g.orGuards(x.X)
+			r, ok2 := g.orGuards(x.Y)
+			if ok1 && ok2 {
+				return append(l, r...), true
+			}
+			return nil, false
+		}
+	}
+	gd, ok := g.guard(e)
+	if !ok {
+		return nil, false
+	}
+	return []string{gd}, true
 }
 
 func isStateFnDecl(c *ex.Ctx, fd *ast.FuncDecl) bool {
@@ -554,6 +603,31 @@ func gen(c *ex.Ctx) {
 		return
 	}
 	fmt.Fprintf(&sb, "/-- readRune falls back to the raw byte only when ReadRune reported an invalid byte (size 1), not for a well-formed U+FFFD -/\ndef fallbackOnlyInvalid : Bool := %s\n\n", fallback)
+	// print: the look-ahead stops in front of an invalid byte (before it is written to the builder)
+	stops := "false"
+	if pf := ex.FindFunc(f, "Parser", "print"); pf != nil {
+		ast.Inspect(pf.Body, func(n ast.Node) bool {
+			fs, ok := n.(*ast.ForStmt)
+			if !ok {
+				return true
+			}
+			sawPeek := false
+			for _, st := range fs.Body.List {
+				switch norm(c.Src(st)) {
+				case "nextRune, size, _ := p.r.ReadRune()":
+					sawPeek = true
+				case "if nextRune == unicode.ReplacementChar && size == 1 { p.r.UnreadRune() break }":
+					if sawPeek {
+						stops = "true"
+					}
+				case "bldr.WriteRune(nextRune)":
+					sawPeek = false
+				}
+			}
+			return false
+		})
+	}
+	fmt.Fprintf(&sb, "/-- print's look-ahead leaves an invalid byte (ReadRune: U+FFFD, size 1) unread and stops, so that readRune delivers it raw -/\ndef lookaheadStopsAtInvalid : Bool := %s\n\n", stops)
 	sb.WriteString("/-- statements in arms or prologues of the state functions that the extractor does not know (they appear as `.unknown` above) -/\ndef unrecognised : List String := [")
 	for i, u := range unrecognised {
 		if i > 0 {
@@ -1071,7 +1145,9 @@ func genReader(c *ex.Ctx, f *ast.File) {
 		"return r":                                                    ".retRune",
 	}
 	loopTable := map[string]string{
-		"nextRune, _, _ := p.r.ReadRune()": ".peekRune",
+		"nextRune, _, _ := p.r.ReadRune()":    ".peekRune",
+		"nextRune, size, _ := p.r.ReadRune()": ".peekRuneSized",
+		"if nextRune == unicode.ReplacementChar && size == 1 { p.r.UnreadRune() break }": ".ifInvalidUnreadBreak",
 		"bldr.WriteRune(nextRune)":         ".writeNext",
 		"grapheme, rest, w, _ = uniseg.FirstGraphemeClusterInString(bldr.String(), -1)": ".firstCluster",
 		"if rest != \"\" { p.r.UnreadRune() break }":                                    ".ifRestUnreadBreak",
